@@ -127,11 +127,17 @@ class Interner:
 class World:
     """one array + the options every command of this history is run with"""
 
-    def __init__(self, binary, shim, rng, nd=2, np_=1, order='alpha', fake_uuid=False, multi=False, where='tmpfs', murmur=False):
+    def __init__(self, binary, shim, rng, nd=2, np_=1, order='alpha', fake_uuid=False, multi=False, where='tmpfs', murmur=False, filters=False, splits=1):
         self.rng = rng
         self.murmur = murmur        # --test-force-murmur3: block hashes are computed by the harness itself
         self.seed = None
-        self.arr = Array(binary, nd=nd, np_=np_, shim=shim, root=mkscratch_on(where))
+        root = mkscratch_on(where)
+        self.filters = filters
+        # filters flavour: exclusion rules, hidden files, a content copy ON a data disk, special files -- the walk applies the same rules
+        extra = ['exclude *.tmp', 'exclude /exdir/', 'nohidden', 'content %s' % os.path.join(root, 'd1', 'snapraid.content')] if filters else []
+        if filters:
+            os.makedirs(os.path.join(root, 'd1'), exist_ok=True)
+        self.arr = Array(binary, nd=nd, np_=np_, shim=shim, root=root, extra_conf=extra, splits=splits)
         self.order, self.fake_uuid, self.multi, self.where = order, fake_uuid, multi, where
         self.names = Interner()
         self.bids = {bytes(self.arr.bs): 0}
@@ -249,16 +255,34 @@ class World:
                 return False
         return True
 
-    def write(self, d, sub, data, mtime_ns=None):
+    def write(self, d, sub, data, mtime_ns=None, guard=False):
         if not self.parent_ok(d, sub):
             return False
+        if guard and mtime_ns is not None and any(len(b) == len(data) and mt == mtime_ns and b != bytes(data) for b, mt in self.arr.store.get((d, sub), [])):
+            return False          # would reproduce a size + time-stamp this name already had with other bytes: invisible by design
         q = self.p(d, sub)
         if os.path.isdir(q) and not os.path.islink(q):
             shutil.rmtree(q)
         elif os.path.islink(q):
             os.unlink(q)
+        elif os.path.lexists(q) and not os.path.isfile(q):
+            os.unlink(q)          # a fifo: opening it for writing would block
         self.arr.write(d, sub, data, mtime_ns if mtime_ns is not None else self.stamp())
         return True
+
+    def aliases(self, d, sub, src):
+        """would putting the file `src` (path on disk) under the name (d, sub) reproduce a size + time-stamp that this name already had
+        with OTHER bytes?  Such a replacement is invisible to the tool by the property's own words (identity = path/inode + size +
+        time-stamp) and belongs to the invisible-rewrite probe, not to the ordinary operations"""
+        st = os.stat(src)
+        data = None
+        for b, mt in self.arr.store.get((d, sub), []):
+            if len(b) == st.st_size and mt == st.st_mtime_ns:
+                if data is None:
+                    data = open(src, 'rb').read()
+                if b != data:
+                    return True
+        return False
 
     def op(self, o):
         """apply one operation (a list, JSON-able); returns True when it changed something"""
@@ -292,18 +316,18 @@ class World:
                 a.remove(o[1], o[2]); done = True
         elif k == 'rename':                    # same disk: the inode is kept
             s, t = self.p(o[1], o[2]), self.p(o[1], o[3])
-            if self.isfile(o[1], o[2]) and not os.path.lexists(t) and self.parent_ok(o[1], o[3]):
+            if self.isfile(o[1], o[2]) and not os.path.lexists(t) and self.parent_ok(o[1], o[3]) and not self.aliases(o[1], o[3], s):
                 os.makedirs(os.path.dirname(t), exist_ok=True)
                 os.rename(s, t); a.note_version(o[1], o[3]); done = True
         elif k == 'swap':                      # two files exchange their names (inodes follow the data)
             s, t = self.p(o[1], o[2]), self.p(o[1], o[3])
-            if self.isfile(o[1], o[2]) and self.isfile(o[1], o[3]) and o[2] != o[3]:
+            if self.isfile(o[1], o[2]) and self.isfile(o[1], o[3]) and o[2] != o[3] and not self.aliases(o[1], o[3], s) and not self.aliases(o[1], o[2], t):
                 tmp = s + '.swaptmp'
                 os.rename(s, tmp); os.rename(t, s); os.rename(tmp, t)
                 a.note_version(o[1], o[2]); a.note_version(o[1], o[3]); done = True
         elif k in ('move', 'copy'):            # across disks (or to another directory): cp -p semantics, new inode
             s, t = self.p(o[1], o[2]), self.p(o[3], o[4])
-            if self.isfile(o[1], o[2]) and not os.path.lexists(t) and self.parent_ok(o[3], o[4]) and (o[1], o[2]) != (o[3], o[4]):
+            if self.isfile(o[1], o[2]) and not os.path.lexists(t) and self.parent_ok(o[3], o[4]) and (o[1], o[2]) != (o[3], o[4]) and not self.aliases(o[3], o[4], s):
                 os.makedirs(os.path.dirname(t), exist_ok=True)
                 st = os.stat(s)
                 shutil.copyfile(s, t)
@@ -319,7 +343,7 @@ class World:
                 if st.st_size != o[3]:
                     old = open(q, 'rb').read()
                     data = old[:o[3]] if o[3] < len(old) else old + rng.randbytes(o[3] - len(old))
-                    done = self.write(o[1], o[2], data, st.st_mtime_ns)
+                    done = self.write(o[1], o[2], data, st.st_mtime_ns, guard=True)
         elif k == 'restore':                   # "restored from a backup": same path, size, time-stamp and bytes, new inode
             if self.isfile(o[1], o[2]):
                 q = self.p(o[1], o[2])
@@ -336,13 +360,18 @@ class World:
             t = self.p(o[3], o[4])
             if self.isfile(o[1], o[2]) and not os.path.lexists(t) and self.parent_ok(o[3], o[4]):
                 st = os.stat(self.p(o[1], o[2]))
-                done = self.write(o[3], o[4], rng.randbytes(st.st_size), st.st_mtime_ns)
+                done = self.write(o[3], o[4], rng.randbytes(st.st_size), st.st_mtime_ns, guard=True)
         elif k == 'samesec':                   # the time-stamp changes INSIDE its second: nanoseconds x -> 0, or 0 -> x; optionally other bytes of the same size
             if self.isfile(o[1], o[2]):
                 q = self.p(o[1], o[2])
                 st = os.stat(q)
                 sec, ns = divmod(st.st_mtime_ns, 10**9)
+                # never reproduce a time-stamp this path already had with other bytes: such a rewrite would be invisible to the tool
+                # (same size, seconds and nanoseconds as the recorded one) and is the business of the invisible-rewrite probe
+                used = set(mt for _, mt in a.store.get((o[1], o[2]), []))
                 m = sec * 10**9 + (0 if ns != 0 else rng.randint(1, 999999999))
+                while m in used:
+                    m = sec * 10**9 + rng.randint(1, 999999999)
                 if o[3] == 'rewrite' and st.st_size > 0:
                     done = self.write(o[1], o[2], rng.randbytes(st.st_size), m)
                 else:
@@ -360,7 +389,7 @@ class World:
                 os.symlink(o[3], q); done = True
         elif k == 'hardlink':
             s, t = self.p(o[1], o[2]), self.p(o[1], o[3])
-            if self.isfile(o[1], o[2]) and not os.path.lexists(t) and self.parent_ok(o[1], o[3]):
+            if self.isfile(o[1], o[2]) and not os.path.lexists(t) and self.parent_ok(o[1], o[3]) and not self.aliases(o[1], o[3], s):
                 os.makedirs(os.path.dirname(t), exist_ok=True)
                 os.link(s, t); a.note_version(o[1], o[3]); done = True
         elif k == 'linkkind':                  # a symlink whose text is the path of a file becomes a hard link to it (same name, same recorded text), or back
@@ -376,6 +405,11 @@ class World:
                                 if not os.path.islink(os.path.join(r, n)) and os.stat(os.path.join(r, n)).st_ino == ino and os.path.join(r, n) != q)
                 if others:
                     os.unlink(q); os.symlink(others[0], q); done = True
+        elif k == 'fifo':                      # a special file: ignored by the tool (a directory holding only such things is `empty`)
+            q = self.p(o[1], o[2])
+            if self.parent_ok(o[1], o[2]) and not os.path.lexists(q):
+                os.makedirs(os.path.dirname(q), exist_ok=True)
+                os.mkfifo(q); done = True
         elif k == 'mkdir':                     # (empty) directory, replacing a file or link of that name
             if self.parent_ok(o[1], o[2]):
                 q = self.p(o[1], o[2])
@@ -410,6 +444,20 @@ class World:
                     if not any(len(b) == st.st_size and m == st.st_mtime_ns for b, m in self.arr.store.get((d, sub), [])):
                         self.arr.note_version(d, sub)
 
+    def excluded(self, disk, rel, name, isdir):
+        """the rules of the filters flavour (conf: exclude *.tmp, exclude /exdir/, nohidden, a content file on d1)"""
+        if not self.filters:
+            return False
+        if isinstance(name, bytes):
+            name = name.decode('latin1'); rel = rel.decode('latin1')
+        if name.startswith('.'):
+            return True
+        if disk == 'd1' and rel == '' and name.startswith('snapraid.content'):
+            return True
+        if isdir:
+            return rel == '' and name == 'exdir'
+        return name.endswith('.tmp')
+
     # ------------------------------------------------------------------------------------------ ground truth
     def truth(self):
         """the harness's own walk: {disk: {'files': {sub: (size, mtime_ns, ino, nlink)}, 'links': {sub: target}, 'dirs': set(empty dirs)}}
@@ -418,21 +466,26 @@ class World:
         for d in self.arr.disks:
             base = os.path.join(self.arr.root, d)
             files, links, dirs = {}, {}, set()
-            for root, dn, fn in os.walk(base):
-                for n in list(dn):
-                    q = os.path.join(root, n)
-                    if os.path.islink(q):
-                        links[os.path.relpath(q, base)] = os.readlink(q)
-                for n in fn:
-                    q = os.path.join(root, n)
-                    if os.path.islink(q):
-                        links[os.path.relpath(q, base)] = os.readlink(q)
-                    else:
-                        st = os.lstat(q)
-                        if stat.S_ISREG(st.st_mode):
-                            files[os.path.relpath(q, base)] = (st.st_size, st.st_mtime_ns, st.st_ino, st.st_nlink)
-                if root != base and not fn and not dn:
-                    dirs.add(os.path.relpath(root, base))
+
+            def walk(path, rel):
+                got = False
+                for n in sorted(os.listdir(path)):
+                    q = os.path.join(path, n)
+                    st = os.lstat(q)
+                    isdir = stat.S_ISDIR(st.st_mode)
+                    if self.excluded(d, rel, n, isdir):
+                        continue
+                    if stat.S_ISLNK(st.st_mode):
+                        links[rel + n] = os.readlink(q); got = True
+                    elif stat.S_ISREG(st.st_mode):
+                        files[rel + n] = (st.st_size, st.st_mtime_ns, st.st_ino, st.st_nlink); got = True
+                    elif isdir:
+                        if not walk(q, rel + n + '/'):
+                            dirs.add(rel + n)
+                        got = True
+                    # anything else (fifo, socket, device) is ignored by the tool
+                return got
+            walk(base, '')
             res[d] = {'files': files, 'links': links, 'dirs': dirs}
         return res
 
@@ -457,6 +510,8 @@ class World:
                 for e in ents:
                     r = rel + e.name
                     st = e.stat(follow_symlinks=False)
+                    if self.excluded(d, rel, e.name, stat.S_ISDIR(st.st_mode)):
+                        continue
                     if stat.S_ISREG(st.st_mode):
                         seq.append(('f', r, st)); processed = True
                     elif stat.S_ISLNK(st.st_mode):
@@ -609,6 +664,96 @@ class World:
         for (b, l), h in sorted(self.hash_known.items()):
             toks += [str(b), str(l), h]
         return toks
+
+
+def content_forget_nsec(data, want=lambda sub: True):
+    """rewrite a content file so that the files selected by `want` carry NO sub-second time-stamp (field 0 = STAT_NSEC_INVALID),
+    as content files written before the nanosecond field existed; own walk over the records, CRC recomputed.  Returns (bytes, n)"""
+    r = cparse.R(data)
+    out = bytearray(r.take(12))
+    blocksize, hashsize, blockmax = None, 16, 0
+    n = 0
+
+    def copy(start):
+        out.extend(data[start:r.p])
+    while not r.eof():
+        start = r.p
+        c = chr(r.c())
+        if c == 'f':
+            r.b32(); size = r.b64(); r.b64()
+            copy(start)
+            r.b32()                                   # the nsec field
+            ns_end = r.p
+            r.b64(); sub = r.bs()
+            if want(sub):
+                out.append(0x80); n += 1              # varint 0
+                out.extend(data[ns_end:r.p])
+            else:
+                out.extend(data[ns_end - _varlen(data, ns_end):r.p])      # unchanged: the nsec field and the rest
+            nblk = (size + blocksize - 1) // blocksize
+            got = 0
+            while got < nblk:
+                s2 = r.p
+                k = chr(r.c()); r.b32(); cnt = r.b32()
+                if k != 'n':
+                    r.take(cnt * hashsize)
+                got += cnt
+                out.extend(data[s2:r.p])
+            continue
+        elif c == 'i':
+            r.b32(); pos = 0
+            while pos < blockmax:
+                cnt = r.b32(); flag = r.b32()
+                if flag & 1:
+                    r.b32()
+                pos += cnt
+        elif c == 'h':
+            r.b32(); pos = 0
+            while pos < blockmax:
+                cnt = r.b32(); k = chr(r.c())
+                if k == 'o':
+                    r.take(cnt * hashsize)
+                pos += cnt
+        elif c in 'sa':
+            r.b32(); r.bs(); r.bs()
+        elif c == 'r':
+            r.b32(); r.bs()
+        elif c in 'cC':
+            r.c(); r.take(16)
+        elif c == 'z':
+            blocksize = r.b32()
+        elif c == 'y':
+            hashsize = r.b32()
+        elif c == 'x':
+            blockmax = r.b32()
+        elif c in 'mM':
+            r.bs(); r.b32()
+            if c == 'M':
+                r.b32(); r.b32()
+            r.bs()
+        elif c == 'P':
+            r.b32(); r.b32(); r.b32(); r.bs()
+        elif c == 'Q':
+            r.b32(); r.b32(); r.b32(); k = r.b32()
+            for _ in range(k):
+                r.bs(); r.bs(); r.b64()
+        elif c == 'N':
+            out.extend(b'N')
+            out.extend(struct.pack('<I', cparse.crc32c(bytes(out))))
+            r.take(4)
+            continue
+        else:
+            raise cparse.Bad('record %r' % c)
+        copy(start)
+    return bytes(out), n
+
+
+def _varlen(data, end):
+    """length of the varint that ends just before `end` (its last byte has the high bit set, the preceding ones do not)"""
+    k = 1
+    while data[end - k - 1] & 0x80 == 0 and k < 5:
+        k += 1
+    return k
 
 
 def counters(r):
